@@ -544,6 +544,9 @@ func TestRun(t *testing.T) {
 		go func(i int, c tcase) {
 			defer wg.Done()
 			defer func() { <-sem }()
+			if rec.NViolations() > 12 {
+				return
+			}
 			vr.CaseLog(c)
 			runTransport(rec, c)
 			rec.Eval(fmt.Sprintf("%+v", c))
